@@ -670,6 +670,19 @@ def paths_under (repo, module, g, env, start, stops, cls=None, limit=200, track=
     if track and n.kind == 'stmt' and isinstance(n.ast, (ast.Assign, ast.AugAssign)) and (n is not start or (track_start and len(path) == 1)):
       ne = _assign_env(repo, module, n.ast, e, cls)
     elif track and n.kind == 'stmt' and isinstance(n.ast, ast.Expr) and isinstance(n.ast.value, ast.Call) and isinstance(n.ast.value.func, ast.Attribute) \
+         and n.ast.value.func.attr == 'insert' and len(n.ast.value.args) == 2 and isinstance(e.exact.get(norm(n.ast.value.func.value)), list):
+      nm_ = norm(n.ast.value.func.value); cur_ = e.exact[nm_]
+      ne = Env(dict(e.exact), list(e.matchers), getattr(e, 'call_hook', None))
+      try:
+        i_ = eval_env2(repo, module, n.ast.value.args[0], e, cls); v_ = eval_env2(repo, module, n.ast.value.args[1], e, cls)
+        if i_ is OPAQUE or v_ is OPAQUE or not isinstance(i_, int): raise _Unknown()
+        c2 = list(cur_); c2.insert(i_, v_); ne.exact[nm_] = c2
+        for k2_, v2_ in list(ne.exact.items()):
+          if k2_ != nm_ and v2_ is cur_: ne.exact[k2_] = c2
+      except Exception:
+        for k2_, v2_ in list(ne.exact.items()):
+          if v2_ is cur_: ne.exact.pop(k2_, None)
+    elif track and n.kind == 'stmt' and isinstance(n.ast, ast.Expr) and isinstance(n.ast.value, ast.Call) and isinstance(n.ast.value.func, ast.Attribute) \
          and n.ast.value.func.attr in ('append', 'extend') and isinstance(n.ast.value.func.value, ast.Subscript) and isinstance(n.ast.value.func.value.value, ast.Name) and len(n.ast.value.args) == 1 \
          and isinstance(e.exact.get(n.ast.value.func.value.value.id), dict):
       # growth of a list kept in a local dict of known value: D[k].append(x)
@@ -717,6 +730,12 @@ def paths_under (repo, module, g, env, start, stops, cls=None, limit=200, track=
             if k2_ != nm_ and v2_ is cur_: ne.exact.pop(k2_, None)
           if '.' in nm_: ne.exact.pop(nm_, None)
           else: _kill(ne, nm_)
+    if track and ne is e and n.kind == 'stmt' and isinstance(n.ast, ast.Expr) and isinstance(n.ast.value, ast.Call) and getattr(e, 'call_hook', None) is not None \
+       and getattr(e.call_hook, 'wants_env', False) and getattr(e.call_hook, 'effects', False):
+      # a call statement: a hook that models effects (declared with .effects = True) gets to apply them to this path's environment
+      ne = Env(dict(e.exact), list(e.matchers), e.call_hook)
+      try: e.call_hook(n.ast.value, ne)
+      except Exception: pass
     for m, l in succ:
       if l == 'exc': continue
       key = (n.id, m.id)
